@@ -103,14 +103,15 @@ def run_property(pid, rules, ctx, tier, level_text, assumptions, explanation, se
             else:
                 violations.append(f)
 
-    os.makedirs(os.path.join(VERIF, "reports"), exist_ok=True)
-    os.makedirs(os.path.join(VERIF, "evidence"), exist_ok=True)
+    OUT = os.environ.get("VERIF_OUT_DIR") or VERIF
+    os.makedirs(os.path.join(OUT, "reports"), exist_ok=True)
+    os.makedirs(os.path.join(OUT, "evidence"), exist_ok=True)
     lines = []
     for f, k in known_hits:
         lines.append("KNOWN-FINDING: property=%s rule=%s %s" % (pid, f.rule, k["what_fails"]))
     for f in violations:
         h = hashlib.sha1(("%s|%s|%s" % (pid, f.rule, f.key)).encode()).hexdigest()[:10]
-        path = os.path.join(VERIF, "reports", "%s-%s-%s.json" % (pid, f.rule, h))
+        path = os.path.join(OUT, "reports", "%s-%s-%s.json" % (pid, f.rule, h))
         with open(path, "w") as fh:
             json.dump({"property": pid, "finding": f.as_dict(), "facts_digest": ctx.prog.digest,
                        "replay": "cd /verif && ./check %s --tier %s   # deterministic: same tree => same finding" % (pid, tier)}, fh, indent=1)
@@ -152,6 +153,6 @@ def run_property(pid, rules, ctx, tier, level_text, assumptions, explanation, se
         "wall_s": round(time.time() - t0 + ctx.extract_seconds, 3),
         "violations": len(violations),
     }
-    with open(os.path.join(VERIF, "evidence", "%s.json" % pid), "w") as fh:
+    with open(os.path.join(OUT, "evidence", "%s.json" % pid), "w") as fh:
         json.dump(ev, fh, indent=1)
     return results, violations, known_hits, lines
